@@ -1051,7 +1051,9 @@ pub fn peer_random(args: &Args) {
         };
         let mut w = PeerW::new(cfg.clone(), peer_iss);
         let listener = rng.chance(70);
-        let peer_total = rng.range(0, (rx as u64 * 3).min(300_000)) as i64; // bytes the peer will "write"
+        // bytes the peer will "write": now and then exactly (or one off) what the first receive window takes, so that its FIN
+        // sits at the window edge -- with window scaling the edge the socket remembers is rounded down
+        let peer_total = if rng.chance(15) { (rx as i64 + rng.range(0, 2) as i64 - 1).max(0) } else { rng.range(0, (rx as u64 * 3).min(300_000)) as i64 };
         let peer_mss_opt: Option<u16> = *rng.pick(&[None, Some(0u16), Some(1), Some(47), Some(48), Some(536), Some(1460), Some(9000)]);
         let peer_ws: Option<u8> = *rng.pick(&[None, Some(0u8), Some(2), Some(7), Some(14)]);
         t.ev(json!({"ev":"reset","run":run,"world":"tcp_peer","src":"random","seed":seed0,"cfg":[{"rx":65535,"tx":65535,"mtu":mtu,"cc":0,"ad":-1,"nagle":false,"ts":false,"isn":peer_iss as i64,"scripted":true},
@@ -1222,6 +1224,60 @@ pub fn peer_random(args: &Args) {
             } else {
                 w.api_abort(&mut t);
                 alive = w.timer_poll(&mut t, json!({}));
+            }
+        }
+        // the socket is used again (a server listening anew): nothing of the connection that just ended -- data buffered
+        // out of order, what the old peer announced -- may show in the next one.  It is a run of its own in the trace.
+        if alive && rng.chance(25) {
+            if w.ep.state() != "CLOSED" {
+                w.api_abort(&mut t);
+                if !w.timer_poll(&mut t, json!({})) {
+                    continue;
+                }
+            }
+            let total2 = rng.range(1, (rx as u64).clamp(1, 4000)) as i64;
+            let iss2 = rng.next() as u32;
+            w.peer_iss = iss2;
+            w.num = Numbering::default();
+            w.num.iss[0] = Some(iss2);
+            w.ep.written = 0;
+            w.ep.read = 0;
+            w.ep.closed_at = None;
+            w.peer_fin = total2;
+            w.now += 20_000;
+            t.ev(json!({"ev":"reset","run":100_000 + run,"reuse_of":run,"world":"tcp_peer","src":"random","seed":seed0,"cfg":[{"rx":65535,"tx":65535,"mtu":mtu,"cc":0,"ad":-1,"nagle":false,"ts":false,"isn":iss2 as i64,"scripted":true},
+                {"rx":rx,"tx":tx,"mtu":mtu,"cc":cfg.cc,"ad":cfg.ack_delay.map(|x| x as i64).unwrap_or(-1),"nagle":cfg.nagle,"ts":false,"isn":-1}], "peer_fin": total2, "listener": true}));
+            w.api_listen(&mut t);
+            let f = w.craft(0, None, 0, true, false, false, 60000, Some(1460), None);
+            if !w.inject(f, &mut t, json!({})) {
+                continue;
+            }
+            w.now += 1;
+            let f = w.craft(1, Some(1), 0, false, false, false, 60000, None, None);
+            if !w.inject(f, &mut t, json!({})) {
+                continue;
+            }
+            // the new peer is honest: its stream in order, in small segments, the application reading along
+            let mut nxt: i64 = 1;
+            let mut ok = true;
+            while ok && nxt <= total2 {
+                let room = (rx as i64 - w.ep.post(w.now)["rq"].as_i64().unwrap()).max(0);
+                let len = (rng.range(1, 40) as i64).min(total2 + 1 - nxt).min(room);
+                w.now += 2;
+                if len > 0 {
+                    let last = nxt + len == total2 + 1;
+                    if last {
+                        t.ev(json!({"ev":"api","ep":0,"now":w.now,"call":"close","at":total2,"scripted":true}));
+                    }
+                    let f = w.craft(nxt, Some(1), len as usize, false, last, false, 60000, None, None);
+                    ok = w.inject(f, &mut t, json!({}));
+                    nxt += len;
+                }
+                w.api_recv(70000, &mut t);
+            }
+            for _ in 0..3 {
+                w.now += 5;
+                w.api_recv(70000, &mut t);
             }
         }
     }
